@@ -123,28 +123,70 @@ func rm2SourceInfoModeConfinement(w *World) {
 		return
 	}
 	info := p.TypesInfo
-	allowed := map[string]string{
-		"protocompile.(*task).link":        "common path of all input forms",
-		"protocompile.needsSourceInfo":     "helper of task.link, receives the mode as a parameter",
-		"protocompile.(*Compiler).Compile": "configuration plumbing before any file is looked at",
+	// functions on the path common to all input forms: task.link itself and, transitively, every
+	// function of the package all of whose static call sites are inside such a function (helpers
+	// extracted from task.link)
+	common := map[*types.Func]bool{link.Obj: true}
+	callSites := map[*types.Func][]*types.Func{} // callee -> enclosing functions of its call sites
+	for _, b := range allFuncBodies(p) {
+		if b.Lit != nil {
+			continue
+		}
+		ast.Inspect(b.Body, func(x ast.Node) bool {
+			switch e := x.(type) {
+			case *ast.CallExpr:
+				if f := callee(info, e); f != nil && f.Pkg() == p.Types {
+					callSites[f.Origin()] = append(callSites[f.Origin()], b.Obj)
+				}
+			case *ast.Ident:
+				// a function used as a value (not called) may be invoked from anywhere
+				if f, ok := info.Uses[e].(*types.Func); ok && f.Pkg() == p.Types {
+					if par, isCall := parentOfIdentIsCallFun(b.Decl, e); !isCall {
+						_ = par
+						callSites[f.Origin()] = append(callSites[f.Origin()], nil)
+					}
+				}
+			}
+			return true
+		})
+	}
+	for changed := true; changed; {
+		changed = false
+		for f, sites := range callSites {
+			if common[f] || len(sites) == 0 {
+				continue
+			}
+			all := true
+			for _, s := range sites {
+				if s == nil || !common[s] {
+					all = false
+				}
+			}
+			if all {
+				common[f] = true
+				changed = true
+			}
+		}
 	}
 	n := 0
 	for _, b := range allFuncBodies(p) {
+		if b.Lit != nil {
+			continue
+		}
 		ast.Inspect(b.Body, func(x ast.Node) bool {
 			sel, ok := x.(*ast.SelectorExpr)
 			if !ok || selField(info, sel) != fld {
 				return true
 			}
 			n++
-			lbl := b.Label
-			if i := strings.Index(lbl, "$"); i >= 0 {
-				lbl = lbl[:i]
-			}
-			key := "source-info-mode-reader|" + lbl
-			if why, ok := allowed[lbl]; ok {
-				w.ok(key, sel.Pos(), "SourceInfoMode is read in "+lbl+" ("+why+")")
-			} else {
-				w.violation(key, sel.Pos(), "Compiler.SourceInfoMode is read in "+lbl+", which is not on the path common to all input forms (task.link): source info handling then depends on whether the resolver supplied source, an AST, a parse result or a descriptor proto")
+			key := "source-info-mode-reader|" + b.Label
+			switch {
+			case b.Obj == link.Obj:
+				w.ok(key, sel.Pos(), "SourceInfoMode is read in task.link, the path common to all input forms")
+			case common[b.Obj]:
+				w.ok(key, sel.Pos(), "SourceInfoMode is read in "+b.Label+", which is only ever called from task.link (or its helpers)")
+			default:
+				w.violation(key, sel.Pos(), "Compiler.SourceInfoMode is read in "+b.Label+", which is not on the path common to all input forms (task.link and the helpers only it calls): source info handling then depends on whether the resolver supplied source, an AST, a parse result or a descriptor proto")
 			}
 			return true
 		})
@@ -152,7 +194,18 @@ func rm2SourceInfoModeConfinement(w *World) {
 	w.floor("reads of Compiler.SourceInfoMode", n, 3)
 	// the strip under SourceInfoNone exists in task.link
 	found := false
-	ast.Inspect(link.Decl.Body, func(x ast.Node) bool {
+	var commonBodies []ast.Node
+	for f := range common {
+		if d := w.decls[f]; d != nil && d.Body != nil {
+			commonBodies = append(commonBodies, d.Body)
+		}
+	}
+	inspectAll := func(fn func(ast.Node) bool) {
+		for _, b := range commonBodies {
+			ast.Inspect(b, fn)
+		}
+	}
+	inspectAll(func(x ast.Node) bool {
 		ifs, ok := x.(*ast.IfStmt)
 		if !ok {
 			return true
@@ -450,4 +503,36 @@ func lookupVar(info *types.Info, root ast.Node, name string) types.Object {
 		return true
 	})
 	return out
+}
+
+// parentOfIdentIsCallFun reports whether identifier id (somewhere under root) is the function
+// position of a call expression (possibly through a selector: recv.id(...)).
+func parentOfIdentIsCallFun(root ast.Node, id *ast.Ident) (ast.Node, bool) {
+	var res ast.Node
+	found := false
+	ast.Inspect(root, func(x ast.Node) bool {
+		c, ok := x.(*ast.CallExpr)
+		if !ok {
+			return true
+		}
+		switch f := ast.Unparen(c.Fun).(type) {
+		case *ast.Ident:
+			if f == id {
+				res, found = c, true
+			}
+		case *ast.SelectorExpr:
+			if f.Sel == id {
+				res, found = c, true
+			}
+		case *ast.IndexExpr:
+			if fi, ok := ast.Unparen(f.X).(*ast.Ident); ok && fi == id {
+				res, found = c, true
+			}
+			if fs, ok := ast.Unparen(f.X).(*ast.SelectorExpr); ok && fs.Sel == id {
+				res, found = c, true
+			}
+		}
+		return !found
+	})
+	return res, found
 }
